@@ -40,6 +40,7 @@ class ProtoInterp(nalg.NInterp):
         self.decide = decide
         self.p = 0
         self.ste = None        # ghost: number of dt-steps from the current position to the end time, when known
+        self.dt_dirty = False  # the step size was rewritten since the pending start-up steps were taken
         self.safe_advance = 0  # largest k for which `time + k·dt < end` was established on this path (dt unchanged since)
         self.at_or_past_end = False
         self.advanced = 0
@@ -74,6 +75,8 @@ class ProtoInterp(nalg.NInterp):
             if not (k.is_Integer):
                 self.events.append(("bad-time-write", "time changes by %s, not an integer number of steps of dt" % sp.simplify(val - old), node))
                 k = sp.Integer(0)
+            if k.is_Integer and int(k) < 0 and self.dt_dirty:
+                self.events.append(("bad-time-write", "time is rolled back by %d step(s) of a dt that was rewritten after those steps were taken: the solver does not return to the saved time" % -int(k), node))
             self.p += int(k)
             self.note_advance(int(k), node)
             if self.ste is not None:
@@ -113,6 +116,7 @@ class ProtoInterp(nalg.NInterp):
             self.ste = int(q) if (q is not None and getattr(q, "is_Integer", False) and q > 0) else None
             if self.ste is None:
                 self.safe_advance = 0
+            self.dt_dirty = True
             self.advanced = 0 if self.ste is None else self.advanced
             self.events.append(("dt", self.ste, node))
             return nalg.NInterp.assign(self, lhs, val, node)
@@ -145,6 +149,7 @@ class ProtoInterp(nalg.NInterp):
             self.fields["self.state"] = Y(self.p)
             self.state_fresh = False
             self.events.append(("rk", m, n))
+            self.dt_dirty = False
             return sym.Variant("Ok", [()])
         if name == "secant" and place(n["recv"]) == "self":
             self.events.append(("solve", None, n))
@@ -225,7 +230,7 @@ class Proto:
 
     def run_call(self, state, prefix):
         """Execute step() from abstract `state` following decision `prefix`; returns (result, forks)."""
-        ym, vals, ders, save, last, ste = state
+        ym, vals, ders, save, last, ste, dirty = state
         forks = []
         decisions = list(prefix)
         pos = [0]
@@ -250,6 +255,7 @@ class Proto:
         it.fields["self.state"] = Y(0)
         it.fields["self.data"] = sym.Opaque("data")
         it.ste = ste
+        it.dt_dirty = dirty
         it.fields["self.yield_memory"] = sp.Integer(ym)
         it.fields["self.save_state"] = Y(save) if save is not None else sp.Symbol("Ysave?", real=True)
         log = []
@@ -283,7 +289,7 @@ class Proto:
 
     def explore(self, limit=4000):
         O = self.O
-        init = (0, (), (), None, 0, None)
+        init = (0, (), (), None, 0, None, False)
         seen = {init}
         work = [init]
         transitions = []
@@ -315,7 +321,7 @@ class Proto:
                 stack.extend(forks)
                 n_calls += 1
                 flagged[0] = False
-                ym, vals, ders, save, last, ste = st
+                ym, vals, ders, save, last, ste, dirty = st
                 kind, tag = self.classify(it, res)
                 p = it.p
                 nvals = tuple(tag_of(x[0]) for x in it.fields["self.prev_values"].items)
@@ -384,7 +390,7 @@ class Proto:
                 def rel(ts):
                     return tuple(t - p for t in ts)
                 pending = (nym == O) if self.kind == "adams" else (nym == O + 1)
-                nst = (nym, rel(nvals), rel(nders), (nsave - p) if (nsave is not None and pending) else None, nlast - p, it.ste)
+                nst = (nym, rel(nvals), rel(nders), (nsave - p) if (nsave is not None and pending) else None, nlast - p, it.ste, bool(it.dt_dirty and pending))
                 transitions.append((st, kind, tag, nst, labels))
                 if kind == "redo":
                     wrote_dt = any(w == "dt" for w, _, _ in it.events)
